@@ -14,6 +14,7 @@ RULE = ("per flavour x instruction class x operand field position: a sweep over 
         "256 immediates, 90 boundary / walking-one 32-bit values incl. negatives) with the other fields random; "
         "plus random whole subroutines (text -> parse -> bytes -> deserialize -> text must be a fixed point). "
         ' After every parse the parsed instruction is edited in place and the same text parsed again; user-defined Flavour subclasses instantiated for different devices. '
+        ' Template operands and boolean immediates in every slot that accepts them. '
         "Non-trivial = instruction has at least one operand; distinct = distinct case description.")
 ASSUMPTIONS = ["operands are in their encodable ranges", "the printed form is str(instruction) (what logs and users see)"]
 SHARDS = {"quick": 1, "thorough": 16}
